@@ -226,7 +226,7 @@ func (g *gen) project(fn string, from *world.Key, class string, value uint64, op
 		allocs = append(allocs, rec.M{"a": g.name(a.ID), "present": a.Present, "ent": a.Enterprise, "owner": owner,
 			"cp_present": a.HasChallengePool, "cp": uw(a.ChallengePool), "wp": p.u(a.WritePool), "exp": exp, "wrap": wrap,
 			"ccap": p.u(cost.Uint64()/5 + uint64(len(a.Blobbers)) + 1),
-			"fin": a.Finalized, "canc": a.Canceled, "bas": bas, "cost": p.u(cost.Uint64()),
+			"fin":  a.Finalized, "canc": a.Canceled, "bas": bas, "cost": p.u(cost.Uint64()),
 			"mtc": p.u(a.MovedToChallenge), "mb": p.u(a.MovedBack), "nopen": len(a.OpenChallenges)})
 	}
 	blobs := []rec.M{}
